@@ -36,7 +36,8 @@ const (
 	c20kLen   // len(base)
 	c20kErr   // &T{...} of a package error type (tag = T) or a fresh error of fmt.Errorf/errors.New (tag = "new")
 	c20kTuple // vs
-	c20kFunc  // a function literal (lit); its free variables are read from the path's environment when it is called
+	c20kAgg   // map/slice/array literal (lookup table): keys (maps, b=true) and vs in source order
+	c20kFunc  // a declared function or method value (obj, base = receiver) or a function literal (lit); its free variables are read from the path's environment when it is called
 )
 
 type c20V struct {
@@ -58,6 +59,7 @@ type c20V struct {
 	vs     []c20V
 	why    string
 	lit    *ast.FuncLit
+	keys   []c20V
 }
 
 func c20Unknown(format string, args ...interface{}) c20V {
@@ -136,7 +138,12 @@ func (v c20V) String() string {
 	case c20kErr:
 		return "&" + v.tag + "{...}"
 	case c20kFunc:
+		if v.obj != nil {
+			return "func " + v.obj.Name()
+		}
 		return "func literal"
+	case c20kAgg:
+		return fmt.Sprintf("table of %d entries", len(v.vs))
 	case c20kTuple:
 		var s []string
 		for _, x := range v.vs {
@@ -168,7 +175,17 @@ func c20Same(a, b c20V) bool {
 	case c20kRef:
 		return a.obj == b.obj
 	case c20kFunc:
-		return a.lit == b.lit
+		return a.lit == b.lit && a.obj == b.obj
+	case c20kAgg:
+		if len(a.vs) != len(b.vs) || len(a.keys) != len(b.keys) {
+			return false
+		}
+		for i := range a.vs {
+			if !c20Same(a.vs[i], b.vs[i]) || (i < len(a.keys) && !c20Same(a.keys[i], b.keys[i])) {
+				return false
+			}
+		}
+		return true
 	case c20kSel:
 		return a.name == b.name && c20Same(*a.base, *b.base)
 	case c20kIdx:
